@@ -51,7 +51,9 @@ class AsyncKicker(Generic[_FuncParams, _ReturnType]):
     ) -> None:
         self.task_name = task_name
         self.broker = broker
-        self.labels = labels
+        # Labels are copied, so per-call modifications (with_labels)
+        # never alter the labels of the task this kicker was created from.
+        self.labels = dict(labels)
         self.custom_task_id: Optional[str] = None
         self.custom_schedule_id: Optional[str] = None
         self.return_type = return_type
